@@ -401,15 +401,15 @@ int KSI_BlockSigner_reset(KSI_BlockSigner *signer) {
 	signer->builder = builder;
 	builder = NULL;
 
-	/* Add the masking handle. */
-	res = KSI_TreeBuilderLeafProcessorList_append(signer->builder->cbList, &signer->maskingProcessor);
+	/* Add the client id handle. Add it first as metadata must be in the first link. */
+	res = KSI_TreeBuilderLeafProcessorList_append(signer->builder->cbList, &signer->metaDataProcessor);
 	if (res != KSI_OK) {
 		KSI_pushError(signer->ctx, res, NULL);
 		goto cleanup;
 	}
 
-	/* Add the client id handle. */
-	res = KSI_TreeBuilderLeafProcessorList_append(signer->builder->cbList, &signer->metaDataProcessor);
+	/* Add the masking handle. */
+	res = KSI_TreeBuilderLeafProcessorList_append(signer->builder->cbList, &signer->maskingProcessor);
 	if (res != KSI_OK) {
 		KSI_pushError(signer->ctx, res, NULL);
 		goto cleanup;
